@@ -33,6 +33,17 @@ CLAIMED["C07"] = {
             "Independence is relative to BODY(body') with body' = the body as re-joined by the splitter (final newline dropped).",
     "design": "DESIGN.md §5 C07",
 }
+CLAIMED["C14"] = {
+    "text": "Coq theorems over a file-system state machine (create/append/backup-move/atomic rename) and the op program of "
+            "reformat_file(s)+strif.atomic_output_file: for every prefix of every chunking of every run (= every failing operation and "
+            "every crash point), any number of files, with/without backup, each target is the complete old or new content or (backup) "
+            "absent with the old content at .orig; old content always recoverable with backups; frame for untouched paths. The op "
+            "program is tied to the code by comparing strace traces of the real CLI with the extracted program; every traced syscall is "
+            "then failed with EIO and answered with SIGKILL and the resulting directory judged by the extracted checker.",
+    "note": "level is proof for the model + fault_enumeration on the implementation; POSIX rename atomicity / O_TRUNC semantics are "
+            "assumptions of the op semantics; durability (fsync) and non-POSIX file systems are outside the model.",
+    "design": "DESIGN.md §5 C14",
+}
 PENDING_REASON = "check not built yet in this revision (work in progress; see DESIGN.md §7 staging)"
 
 def main():
